@@ -47,9 +47,18 @@ Theorem C01_splices_match_source : forall s r off alt,
   k_dna_insert_substr s off alt = insert_substr s off alt.
 Proof. intros s r off alt. exact (conj (k_dna_replace_substr_eq s r alt) (k_dna_insert_substr_eq s off alt)). Qed.
 
+(* the whole way from a variant to the altered sequence - alter_seq, Seq.alter (its assertion on insertions, dataclasses.replace of the text),
+   Seq.replace_substr / insert_substr in absolute coordinates, Variant.ref_range / type / is_insertion - translated on every run, is the
+   model's alter for every sequence and every variant that has a REF or an ALT: the row law above (C01_alter_replace, C01_alter_insert) is a
+   statement about oligo_seq.py, seq.py, strings/dna_str.py and variant.py as they stand *)
+Theorem C01_alter_matches_source : forall q v, v_ref v <> [] \/ v_alt v <> [] ->
+  k_alter_seq q v = match alter q v with Ok s => Ok (mkSeq (s_start q) s) | Err e => Err e end.
+Proof. exact k_alter_seq_eq. Qed.
+
 Print Assumptions C01_alter_replace.
 Print Assumptions C01_alter_insert.
 Print Assumptions C01_row_sequence_fields.
 Print Assumptions C01_row_ref_is_template.
 Print Assumptions C01_revcomp_involutive.
 Print Assumptions C01_splices_match_source.
+Print Assumptions C01_alter_matches_source.
